@@ -13,8 +13,11 @@ package main
 
 import (
 	"fmt"
+	"math"
 	"os"
 	"reflect"
+	"sort"
+	"strconv"
 	"strings"
 
 	"github.com/google/mtail/internal/zzverif/progs"
@@ -147,8 +150,21 @@ func check(h hist, full *progs.Case, count func(string)) []finding {
 			seen[o.Prog] = true
 		}
 	}
+	dup := hasDuplicateSeries(full.Snaps[len(full.Snaps)-1])
+	if dup {
+		count("scrape-skipped:duplicate-series-in-store")
+	} else if full.ScrapeErr != "" {
+		out = append(out, finding{"scrape-fails", "Prometheus Gather failed although no program exports a series twice: " + full.ScrapeErr, nil})
+	}
 	for p := range seen {
 		alone := h.w.Run(restrict(h.ops, p), h.omit, false)
+		diverged := false
+		if !dup {
+			want := expectedSeries(full.Snaps[len(full.Snaps)-1], p)
+			if !reflect.DeepEqual(full.Scrape[p], want) && !(len(want) == 0 && len(full.Scrape[p]) == 0) {
+				out = append(out, finding{"export-differs-from-store", fmt.Sprintf("the Prometheus samples with prog=%q are %q, the store holds %q", p, full.Scrape[p], want), alone})
+			}
+		}
 		for i := range full.Ops {
 			fo, ao := full.Ops[i], alone.Ops[i]
 			if fo.K == "load" && fo.Prog == p && fo.Err != ao.Err {
@@ -156,16 +172,25 @@ func check(h hist, full *progs.Case, count func(string)) []finding {
 					// refused because another program uses the name with another
 					// kind: permitted; from here on the program legitimately differs
 					count("permitted-kind-refusal")
+					diverged = true
 					break
 				}
+				diverged = true
 				out = append(out, finding{"load-outcome-depends-on-other-programs", fmt.Sprintf("step %d: load of %s returned %q with the other programs present and %q alone", i+1, p, fo.Err, ao.Err), alone})
 				break
 			}
 			fv, av := project(full.Snaps[i], p), project(alone.Snaps[i], p)
 			if !reflect.DeepEqual(fv, av) {
 				cl := "program-state-depends-on-other-programs"
+				diverged = true
 				out = append(out, finding{cl, fmt.Sprintf("step %d (%s %s%s): the metrics of %s differ from running it alone: %+v vs %+v", i+1, fo.K, fo.Prog, fo.Line, p, fv, av), alone})
 				break
+			}
+		}
+		if !(dup || diverged || hasDuplicateSeries(alone.Snaps[len(alone.Snaps)-1])) {
+			a, f := alone.Scrape[p], full.Scrape[p]
+			if !reflect.DeepEqual(a, f) && !(len(a) == 0 && len(f) == 0) {
+				out = append(out, finding{"export-depends-on-other-programs", fmt.Sprintf("the Prometheus samples with prog=%q are %q with the other programs loaded and %q alone", p, f, a), alone})
 			}
 		}
 	}
@@ -207,6 +232,60 @@ func clashesWithOther(full *progs.Case, step int, p, errText string) bool {
 	return false
 }
 
+// expectedSeries renders what Prometheus must show for program p, from the
+// store: one sample per label value of every non-text metric of p, labelled
+// with prog and the metric's own keys.
+func expectedSeries(s progs.Snap, p string) []string {
+	var out []string
+	for _, nm := range s.Store {
+		for _, m := range nm.Metrics {
+			if m.Prog != p || m.Decl.Kind == 4 {
+				continue
+			}
+			for _, lv := range m.LVs {
+				ls := []string{"prog=" + strconv.Quote(p)}
+				for i, k := range m.Decl.Keys {
+					if i < len(lv.Ls) {
+						ls = append(ls, k+"="+strconv.Quote(lv.Ls[i]))
+					}
+				}
+				sort.Strings(ls)
+				v := float64(lv.I)
+				if lv.Ty == "float" {
+					v = math.Float64frombits(lv.Bits)
+				}
+				out = append(out, fmt.Sprintf("%s{%s} %v", strings.ReplaceAll(nm.Name, "-", "_"), strings.Join(ls, ","), v))
+			}
+		}
+	}
+	sort.Strings(out)
+	return out
+}
+
+// hasDuplicateSeries: some program exports one name and label set twice (the
+// known findings of C14); Prometheus then rejects the whole scrape.
+func hasDuplicateSeries(s progs.Snap) bool {
+	for _, nm := range s.Store {
+		seen := map[string]bool{}
+		for _, m := range nm.Metrics {
+			for _, lv := range m.LVs {
+				mm := map[string]string{"prog": m.Prog}
+				for i, k := range m.Decl.Keys {
+					if i < len(lv.Ls) {
+						mm[k] = lv.Ls[i]
+					}
+				}
+				key := fmt.Sprint(mm)
+				if seen[key] {
+					return true
+				}
+				seen[key] = true
+			}
+		}
+	}
+	return false
+}
+
 func nontrivial(c *progs.Case) bool {
 	// two programs hold data under one metric name at some step
 	for _, s := range c.Snaps {
@@ -228,6 +307,7 @@ func nontrivial(c *progs.Case) bool {
 func main() {
 	a := vlib.ParseArgs()
 	progs.Quiet()
+	progs.WantScrape = true
 	if a.Replay != "" {
 		replay(a.Replay)
 		return
